@@ -778,19 +778,153 @@ def c15_sched_part(pid, tier, seed):
     return 0, n, with_res
 
 
+def c15_order_part(pid, seed):
+    """Every order in which resource views can be requested (C15): each program of tools/gen_resorder.py must
+    type-check (rustc's verdict per program is also compared with [res_views_accepted] of Model/ResOrder.v on the
+    regenerated fact) and, run, must return the resource of the requested type at each position."""
+    import re
+    sys.path.insert(0, os.path.join(VERIF, "tools"))
+    import gen_resorder
+    regen_all()
+    out = os.path.join(common.BUILD, "resorder")
+    fam = gen_resorder.emit(out, common.REPO)
+    lock = os.path.join(out, "Cargo.lock")
+    if not os.path.exists(lock):
+        open(lock, "w").write(open(os.path.join(common.REPO, "Cargo.lock")).read())
+    e = common.env()
+    e["CARGO_TARGET_DIR"] = os.path.join(common.BUILD, "target_resorder")
+    e["RUSTFLAGS"] = "-Awarnings"
+    errs, infra, saw = [], None, False
+    with common.Lock("cargo-resorder"):
+        p = common.run(["cargo", "check", "--offline", "--message-format=json", "--lib"], cwd=out, check=False, env_=e, timeout=1800)
+        for line in p.stdout.split("\n"):
+            if not line.startswith("{"):
+                continue
+            try:
+                m = json.loads(line)
+            except ValueError:
+                continue
+            if m.get("reason") == "build-finished":
+                saw = True
+            if m.get("reason") != "compiler-message" or m["message"].get("level") != "error":
+                continue
+            if m.get("target", {}).get("name", "") != "resorder":
+                infra = "brood itself does not compile: " + m["message"].get("message", "")[:300]
+                continue
+            spans = [sp for sp in m["message"].get("spans", []) if sp.get("is_primary")] or m["message"].get("spans", [])
+            for sp in spans[:1]:
+                hops = 0
+                while not sp.get("file_name", "").endswith("src/lib.rs") and (sp.get("expansion") or {}).get("span") and hops < 16:
+                    sp = sp["expansion"]["span"]
+                    hops += 1
+                if sp.get("file_name", "").endswith("src/lib.rs"):
+                    errs.append((sp["line_start"], m["message"]["message"][:200]))
+                else:
+                    infra = "error outside the programs: " + m["message"]["message"][:200]
+        if not saw and not errs and not infra:
+            infra = "cargo check produced no result for the resource-order programs: " + p.stdout[-600:]
+        if infra:
+            raise Infra(infra)
+        verdict = {}
+        for pr in fam:
+            mine = [msg for (ln, msg) in errs if pr["first_line"] <= ln <= pr["last_line"]]
+            verdict[pr["name"]] = mine
+        stray = [x for x in errs if not any(pr["first_line"] <= x[0] <= pr["last_line"] for pr in fam)]
+        if stray:
+            raise Infra("error outside every resource-order program: %s" % stray[:2])
+        values = None
+        if not errs:
+            r = common.run(["cargo", "run", "--offline", "--quiet"], cwd=out, check=False, env_=e, timeout=1800)
+            if r.returncode != 0:
+                raise Infra("the resource-order programs type-check but do not run: " + r.stdout[-600:])
+            values = {l.split()[0]: [int(x) for x in l.split()[1:]] for l in r.stdout.split("\n") if l.strip()}
+    # the model's verdicts on the regenerated fact
+    wd = os.path.join(common.BUILD, "run", "resorder")
+    os.makedirs(wd, exist_ok=True)
+    with open(os.path.join(wd, "cases.v"), "w") as f:
+        f.write("From Brood Require Import Base Facts ResOrder.\n")
+        f.write("Definition b2n (b : bool) : nat := if b then 1 else 0.\n")
+        f.write("Eval vm_compute in [%s].\n" % "; ".join(
+            "b2n (res_views_accepted [%s] [%s])" % ("; ".join(map(str, range(pr["n"]))), "; ".join(map(str, pr["order"]))) for pr in fam))
+    model = None
+    ok, log = common.build_coq(["Model/ResOrder.vo"])
+    if ok:
+        with common.Lock("coq"):
+            q = common.run(["timeout", "600", "coqc", "-noglob", "-Q", common.COQ, "Brood", os.path.join(wd, "cases.v")], cwd=wd, check=False)
+        m = re.search(r"=\s*\[([^\]]*)\]", q.stdout)
+        if q.returncode == 0 and m:
+            model = [int(x) for x in re.findall(r"\d+", m.group(1))]
+            if len(model) != len(fam):
+                model = None
+    info = {"programs": len(fam), "rejected_by_rustc": sum(1 for v in verdict.values() if v),
+            "model_evaluated": model is not None, "values_checked": 0}
+    for i, pr in enumerate(fam):
+        if verdict[pr["name"]]:
+            msg = ("resource views requested in the order %s over %d resources (through %s) do not type-check: %s"
+                   % (pr["order"], pr["n"], pr["via"], verdict[pr["name"]][0]))
+            path = write_replay(pid, seed, {"property": pid, "kind": "failing-program", "message": msg, "program": pr,
+                                            "model_accepts": (model[i] if model else None),
+                                            "all_rejected": [q_["name"] for q_ in fam if verdict[q_["name"]]],
+                                            "how_to_replay": "cd build/resorder && cargo check --offline --lib  (module p_%s)" % pr["name"]})
+            print("VIOLATION property=%s replay=%s" % (pid, path))
+            print("  " + msg)
+            return 1, info
+    for pr in fam:
+        want = [100 + i for i in pr["order"]]
+        got = (values or {}).get(pr["name"])
+        info["values_checked"] += 1
+        if got != want:
+            msg = "resource views %s over %d resources (through %s) returned %s, the requested resources hold %s" % (pr["order"], pr["n"], pr["via"], got, want)
+            path = write_replay(pid, seed, {"property": pid, "kind": "failing-program", "message": msg, "program": pr,
+                                            "how_to_replay": "cd build/resorder && cargo run --offline"})
+            print("VIOLATION property=%s replay=%s" % (pid, path))
+            print("  " + msg)
+            return 1, info
+    if model is None or any(x != 1 for x in model):
+        path = write_replay(pid, seed, {"property": pid, "kind": "no-failing-input-found", "no_longer_checks": [{
+            "correspondence": "rustc accepts every resource-view order, res_views_accepted (Model/ResOrder.v on the regenerated fact) does not, or could not be evaluated",
+            "model": model, "log": (log or "")[-800:]}]})
+        print("VIOLATION property=%s replay=%s no-failing-input-found" % (pid, path))
+        return 1, info
+    return 0, info
+
+
 def run_check(pid, tier, seed, t0):
     if pid == "C15":
-        rc = wh_check(pid, tier, seed, t0)
-        rc2, n, with_res = (0, 0, 0) if rc else c15_sched_part(pid, tier, seed)
+        # the order sweep runs first: when the theorem about orders no longer checks, it is the search for a
+        # concrete failing input, and its replay is the one that is kept
+        rc3, oinfo = c15_order_part(pid, seed)
+        if rc3:
+            import contextlib
+            import io
+            rp = os.path.join(VERIF, "replays", "%s-%s.json" % (pid, seed))
+            keep = open(rp).read() if os.path.exists(rp) else None
+            buf = io.StringIO()
+            with contextlib.redirect_stdout(buf):
+                rc = wh_check(pid, tier, seed, t0)
+            lines = buf.getvalue().split("\n")
+            for i, l in enumerate(lines):
+                if l.startswith("KNOWN-FINDING"):
+                    print(l)
+                elif l.startswith("VIOLATION") and not l.rstrip().endswith("no-failing-input-found"):
+                    print(l)
+                    keep = None
+            if keep is not None:
+                open(rp, "w").write(keep)
+            rc2, n, with_res = 0, 0, 0
+        else:
+            rc = wh_check(pid, tier, seed, t0)
+            rc2, n, with_res = (0, 0, 0) if rc else c15_sched_part(pid, tier, seed)
         ev = os.path.join(EVIDENCE, pid + ".json")
         if os.path.exists(ev):
             d = json.load(open(ev))
             d.setdefault("coverage", {})["schedule_runs_judged_on_resources"] = n
             d["coverage"]["schedule_runs_with_resource_views"] = with_res
-            if rc2:
+            d["coverage"]["resource_view_orders"] = oinfo
+            if rc2 or rc3:
                 d["violations"] = max(1, d.get("violations", 0))
             json.dump(d, open(ev, "w"), indent=1)
-        return rc or rc2
+        return rc or rc2 or rc3
     if pid in WH:
         return wh_check(pid, tier, seed, t0)
     if pid in ("C07", "C08", "C12"):
@@ -805,6 +939,10 @@ def run_check(pid, tier, seed, t0):
 def replay(pid, path):
     if pid == "C15" and json.load(open(path)).get("kind") == "failing-schedule-run":
         return replay_sched(pid, path)
+    if pid == "C15" and json.load(open(path)).get("kind") == "failing-program":
+        r = json.load(open(path))
+        print(json.dumps({k: r.get(k) for k in ("message", "program", "how_to_replay")}, indent=1)[:3000])
+        return c15_order_part(pid, 1)[0]
     if pid in WH:
         return replay_wh(pid, path)
     if pid in ("C07", "C08", "C12"):
